@@ -764,7 +764,8 @@ package ast
 //@ ghost var $rF array[int]float64
 //@ ghost var $rAlloc int                // elements allocated by readers on behalf of length prefixes (C20)
 //@ modset wstream = $wN, $wK, $wS, $wI, $wB, $wF, $wErrN
-//@ modset rstream = $rPos, $consumed, $allocated, global TotalRead, global ReadCount
+//@ ghost var $rErrN int                  // failed primitive reads so far (C12: none is ever swallowed by the catalogue reader)
+//@ modset rstream = $rPos, $rErrN, $consumed, $allocated, global TotalRead, global ReadCount
 //@ pure func wrap_u64(x int) int { return x % 18446744073709551616 }
 //@ pure func wrap_s64(x int) int { return (x + 9223372036854775808) % 18446744073709551616 - 9223372036854775808 }
 //@ macro func wPrefixKept(n0 int) bool { return forall j int :: 0 <= j && j < n0 ==> $wK[j] == old($wK[j]) && $wS[j] == old($wS[j]) && $wI[j] == old($wI[j]) && $wB[j] == old($wB[j]) && $wF[j] == old($wF[j]) }
@@ -825,6 +826,7 @@ package ast
 //@   trusted_ensures (err == nil) == (old($rPos) < $rEnd)
 //@   trusted_ensures err == nil && $rK[old($rPos)] == 1 ==> s == $rS[old($rPos)]
 //@   ghost_exit $rPos = ite(err == nil, $rPos + 1, $rPos)
+//@   ghost_exit $rErrN = ite(err != nil, $rErrN + 1, $rErrN)
 //@   nopanic[C20]
 //@   ensures[C20] allocbounded: $allocated - old($allocated) <= 2 * ($consumed - old($consumed)) + 16
 //@ extern func ReadIntFromReader(r) (i, err)
@@ -833,16 +835,19 @@ package ast
 //@   ensures i >= 0 && i <= 18446744073709551615
 //@   ensures err == nil && $rK[old($rPos)] == 2 ==> i == $rI[old($rPos)]
 //@   ghost_exit $rPos = ite(err == nil, $rPos + 1, $rPos)
+//@   ghost_exit $rErrN = ite(err != nil, $rErrN + 1, $rErrN)
 //@ extern func ReadBoolFromReader(r) (b, err)
 //@   nopanic
 //@   ensures (err == nil) == (old($rPos) < $rEnd)
 //@   ensures err == nil && $rK[old($rPos)] == 3 ==> b == $rB[old($rPos)]
 //@   ghost_exit $rPos = ite(err == nil, $rPos + 1, $rPos)
+//@   ghost_exit $rErrN = ite(err != nil, $rErrN + 1, $rErrN)
 //@ extern func ReadFloatFromReader(r) (f, err)
 //@   nopanic
 //@   ensures (err == nil) == (old($rPos) < $rEnd)
 //@   ensures err == nil && $rK[old($rPos)] == 4 ==> f == $rF[old($rPos)]
 //@   ghost_exit $rPos = ite(err == nil, $rPos + 1, $rPos)
+//@   ghost_exit $rErrN = ite(err != nil, $rErrN + 1, $rErrN)
 
 // ---- NodeMeta: token layout = NodeMeta fields, then the struct's own fields in DECLARATION order ----
 //@ macro func layNodeMeta(K array[int]int, S array[int]string, I array[int]int, B array[int]bool, p int, m *NodeMeta) bool { return K[p+0] == 1 && S[p+0] == m.AstID && K[p+1] == 1 && S[p+1] == m.GrlText && K[p+2] == 1 && S[p+2] == m.Snapshot }
@@ -1159,6 +1164,8 @@ package ast
 //@ extern func (m Meta) ReadMetaFrom(reader) (err)
 //@   nopanic
 //@   modifies *, @rstream
+// (the 13 record readers return the first read error they meet: checked in the form of their decodes / completeloads clauses)
+//@   ensures $rErrN >= old($rErrN) && (err == nil ==> $rErrN == old($rErrN))
 //@   ensures err == nil ==> $rPos <= $rEnd
 //@   ensures $rPos >= old($rPos)
 //@ func (cat *Catalog) WriteCatalogToWriter(writer) (err)
@@ -1178,12 +1185,26 @@ package ast
 //@   invariant@8 $wErrN == old($wErrN)
 
 // LoadKnowledgeBaseFromReader: a nil error means the catalogue was read completely; with overwrite=false an existing entry is untouched
-//@ extern func (cat *Catalog) ReadCatalogFromReader(reader) (err)
+// ReadCatalogFromReader is checked: no failed read is ever swallowed (ghost counter of failed primitive reads), and a nil
+// error means the reader never went past the end of the stream. (It may panic on absurd counts - make - which the caller recovers.)
+//@ func (cat *Catalog) ReadCatalogFromReader(reader) (err)
+//@   serves C12 C20
+//@   requires cat != nil && reader != nil && $rPos >= 0
 //@   modifies *, @rstream
 //@   ghost_exit $catReadFailed = err != nil
+//@   invariant@1[C12] nofail: $rErrN == old($rErrN) && $rPos <= $rEnd
+//@   invariant@2[C12] nofail: $rErrN == old($rErrN) && $rPos <= $rEnd
+//@   invariant@3[C12] nofail: $rErrN == old($rErrN) && $rPos <= $rEnd
+//@   invariant@4[C12] nofail: $rErrN == old($rErrN) && $rPos <= $rEnd
+//@   invariant@5[C12] nofail: $rErrN == old($rErrN) && $rPos <= $rEnd
+//@   invariant@6[C12] nofail: $rErrN == old($rErrN) && $rPos <= $rEnd
+//@   invariant@7[C12] nofail: $rErrN == old($rErrN) && $rPos <= $rEnd
+//@   invariant@8[C12] nofail: $rErrN == old($rErrN) && $rPos <= $rEnd
+//@   ensures[C12] errorsurfaces: $rErrN > old($rErrN) ==> err != nil
+//@   ensures[C12,C20] truncationfails: err == nil ==> $rPos <= $rEnd
 //@ func (lib *KnowledgeLibrary) LoadKnowledgeBaseFromReader(reader, overwrite) (retKb, retErr)
 //@   serves C12 C20
-//@   requires lib != nil && lib.Library != nil
+//@   requires lib != nil && lib.Library != nil && reader != nil && $rPos >= 0
 //@   opt alloc=1
 //@   nopanic
 //@   modifies *, @rstream, $catReadFailed
